@@ -163,7 +163,7 @@ def run(tier, seed):
     chk = report.Check("C04", tier, seed)
     rng = random.Random(seed)
     mc.into(chk, mc.run_config("MC_Perm_q" if tier == "quick" else "MC_Perm_t", "MC_Perm", must_cover=("ReplyEv", "WorkerStep")))
-    mc.into(chk, mc.run_config("MC_Pipe_q", "MC_Perm", must_cover=("ReplyEv",)))   # pipelined CWD/CDUP overtaking a pending handler
+    mc.into(chk, mc.run_config("MC_Pipe_q" if tier == "quick" else "MC_Pipe_t", "MC_Perm", must_cover=("ReplyEv",), timeout=3000))   # pipelined CWD/CDUP overtaking a pending handler
     tables = list(TABLES.items()) + [("rand%d" % i, rand_table(rng)) for i in range(3 if tier == "quick" else 25)]
     total = 0
     for name, table in tables:
